@@ -385,15 +385,15 @@ def emitter_domains(p: Program, fi: FuncInfo) -> dict[str, tuple[str, str]]:
         t = g.test
         if isinstance(t, ast.UnaryOp) and isinstance(t.op, ast.Not):
             c = t.operand
-            if isinstance(c, ast.Compare) and len(c.ops) == 2 and all(isinstance(o, ast.LtE) for o in c.ops) and isinstance(c.comparators[0], ast.Name):
+            if isinstance(c, ast.Compare) and len(c.ops) == 2 and all(isinstance(o, ast.LtE) for o in c.ops) and _plain(c.comparators[0]):
                 lo, hi = src(c.left), src(c.comparators[1])
-                var = c.comparators[0].id
+                var = src(c.comparators[0])                  # a local, or the field read in place (`pairing[0].note`)
                 for attr, tag in (("pitch_range", "PITCH"), ("time_signature_range", "TSG")):
                     if lo == f"self.{attr}[0]" and hi == f"self.{attr}[1]":
                         out[var] = (tag, f"guard `{short(t)}` raises otherwise")
-        if isinstance(t, ast.Compare) and len(t.ops) == 1 and isinstance(t.ops[0], ast.NotIn) and isinstance(t.left, ast.Name) \
+        if isinstance(t, ast.Compare) and len(t.ops) == 1 and isinstance(t.ops[0], ast.NotIn) and _plain(t.left) \
                 and attr_chain(t.comparators[0]) == ["self", "note_values"]:
-            out[t.left.id] = ("VALUE", f"guard `{short(t)}` raises otherwise")
+            out[src(t.left)] = ("VALUE", f"guard `{short(t)}` raises otherwise")
     # provenance: element of self.velocity_bins / self.step_sizes
     for var, vals in assigns.items():
         for attr, tag in (("velocity_bins", "VELOCITY"), ("step_sizes", "REST")):
@@ -409,6 +409,10 @@ def emitter_domains(p: Program, fi: FuncInfo) -> dict[str, tuple[str, str]]:
                     if attr_chain(base) == ["self", attr] and isinstance(g.elt, ast.Name) and isinstance(g.generators[0].target, ast.Name) \
                             and g.elt.id == g.generators[0].target.id:
                         good = True
+                if isinstance(v, ast.Call) and fi.cls and isinstance(v.func, ast.Attribute) and isinstance(v.func.value, ast.Name) and v.func.value.id in ("self", fi.cls):
+                    h = p.lookup_method(fi.cls, v.func.attr)
+                    if h is not None and _returns_element_of(h.node, attr):
+                        good = True                      # a helper of the class whose every result is an element of that list
                 ok = ok and good
             if ok:
                 out[var] = (tag, f"element of self.{attr}")
@@ -430,4 +434,48 @@ def emitter_domains(p: Program, fi: FuncInfo) -> dict[str, tuple[str, str]]:
                         for v in vals):
             if has_len_guard and set_ch is not None:
                 out.setdefault(var, ("TRACK", "channels assigned 0..num_tracks-1 by set_channel(i); input count checked against num_tracks"))
+    # ... or the channel read in place, wherever a token is formatted from `<pairing>[0].channel`
+    if has_len_guard and set_ch is not None:
+        for n in body:
+            if isinstance(n, ast.FormattedValue) and isinstance(n.value, ast.Attribute) and n.value.attr == "channel" and "pairing" in src(n.value.value):
+                out.setdefault(src(n.value), ("TRACK", "channels assigned 0..num_tracks-1 by set_channel(i); input count checked against num_tracks"))
     return out
+
+
+def _plain(e: ast.AST) -> bool:
+    """A name, or an attribute / constant-subscript chain on a name: something that can be named again by its source text."""
+    while isinstance(e, (ast.Attribute, ast.Subscript)):
+        if isinstance(e, ast.Subscript) and not isinstance(e.slice, ast.Constant):
+            return False
+        e = e.value
+    return isinstance(e, ast.Name)
+
+
+def _returns_element_of(fn: ast.FunctionDef, attr: str) -> bool:
+    """Every value `fn` returns is an element of `self.<attr>`: the list indexed, a loop variable over it (in any order), or a local
+    assigned one of those."""
+    elem_names = set()
+    for n in ast.walk(fn):
+        if isinstance(n, ast.For) and isinstance(n.target, ast.Name):
+            it = n.iter
+            base = it.args[0] if isinstance(it, ast.Call) and isinstance(it.func, ast.Name) and it.func.id in ("reversed", "sorted", "iter", "list") and it.args else it
+            if attr_chain(base) == ["self", attr]:
+                elem_names.add(n.target.id)
+        if isinstance(n, ast.Assign) and len(n.targets) == 1 and isinstance(n.targets[0], ast.Name) and isinstance(n.value, ast.Subscript) \
+                and attr_chain(n.value.value) == ["self", attr] and not isinstance(n.value.slice, ast.Slice):
+            elem_names.add(n.targets[0].id)
+    stores = {}
+    for n in ast.walk(fn):
+        if isinstance(n, ast.Name) and isinstance(n.ctx, ast.Store):
+            stores[n.id] = stores.get(n.id, 0) + 1
+    rets = [r for r in ast.walk(fn) if isinstance(r, ast.Return)]
+    if not rets:
+        return False
+    for r in rets:
+        v = r.value
+        if isinstance(v, ast.Name) and v.id in elem_names and stores.get(v.id, 0) == 1:
+            continue
+        if isinstance(v, ast.Subscript) and attr_chain(v.value) == ["self", attr] and not isinstance(v.slice, ast.Slice):
+            continue
+        return False
+    return True
